@@ -301,7 +301,39 @@ func piecesWorker(req N) (resp N) {
 			}
 		}
 	}
-	return N{"k": "done", "pieces": results, "globals": globals}
+	// the incrementally compiled code (refused inputs included in its history) goes through the serialiser: it
+	// must load again and re-marshal to the same bytes
+	marshal := "n/a"
+	if main := c.Code(); main != nil {
+		func() {
+			defer func() {
+				if r := recover(); r != nil {
+					marshal = "panic: " + fmt.Sprint(r)
+				}
+			}()
+			b1, err := compiler.MarshalCode(main)
+			if err != nil {
+				marshal = "marshal: " + err.Error()
+				return
+			}
+			re, err := compiler.UnmarshalCode(b1)
+			if err != nil {
+				marshal = "unmarshal: " + err.Error()
+				return
+			}
+			b2, err := compiler.MarshalCode(re)
+			if err != nil {
+				marshal = "remarshal: " + err.Error()
+				return
+			}
+			if string(b1) != string(b2) {
+				marshal = "remarshal differs"
+				return
+			}
+			marshal = "ok"
+		}()
+	}
+	return N{"k": "done", "pieces": results, "globals": globals, "marshal": marshal}
 }
 
 func vmSP(v *vm.VirtualMachine) int { return v.VerifSP() }
